@@ -5,6 +5,7 @@ from __future__ import annotations
 from . import common, gram
 from .sexp import Sym
 
+import json
 import multiprocessing as _mp
 
 FUEL = 1500
@@ -140,6 +141,9 @@ def _eval_case(pp, job):
     if job.get("want_plain"):
         # does the extracted node table fall under the closed PEG-reading theorem (Props/C01Sem.lean)?  Asked of the model.
         out["plain_line"] = gram.model_line(mode_sexp(("none",)), "plain", 0, ri, dw, "", False, [], nodes)
+    if job.get("want_term"):
+        # C06: do the executable hypotheses of entry_points_terminate_depth (Props/C06Term.lean) hold of this node table?
+        out["term_line"] = gram.model_line(mode_sexp(("none",)), "termcheck", 0, ri, dw, "", False, [], nodes)
     return out
 
 
@@ -169,6 +173,45 @@ def run_jobs(ctx, stream, jobs, project=None, nontrivial=None):
             if ans.strip() == "T":
                 n_plain_g += 1
                 n_plain_c += nrec
+    # C06 termination tests (depthOk at the root, advOk) evaluated by the driver on every extracted table that asked
+    term_q = [(j, r["term_line"], r["records"]) for j, r in zip(jobs, res) if "skip" not in r and r.get("term_line")]
+    term = {"grammars_asked": len(term_q), "acyclic": 0, "acyclic_and_advancing": 0, "recursive_ok_and_advancing": 0,
+            "compared_cases_under_theorem": 0, "compared_cases_under_recursive_theorem_only": 0,
+            "real_timeouts_under_theorem": 0, "model_hangs_under_theorem": 0}
+    term_bad = []
+    if term_q:
+        answers = ctx.driver.run_sharded([l for _, l, _ in term_q])
+        mi = 0
+        idx_of = {}
+        for k, c in enumerate(cases):
+            idx_of.setdefault(json.dumps([c["prog"], c["root"]], sort_keys=True, default=str), []).append(k)
+        for ans, (job, _, recs) in zip(answers, term_q):
+            a = ans.strip().strip("()").split()
+            if len(a) != 4:
+                continue
+            acyc, adv, rec, n_nodes = a[0] == "T", a[1] == "T", a[2] == "T", int(a[3])
+            if acyc:
+                term["acyclic"] += 1
+            if acyc and adv:
+                term["acyclic_and_advancing"] += 1
+            elif rec and adv:
+                term["recursive_ok_and_advancing"] += 1
+            else:
+                continue
+            for k in idx_of.get(json.dumps([job["prog"], job["root"]], sort_keys=True, default=str), []):
+                if not (acyc and adv):
+                    # entry_points_terminate_rec_partial asks fuel > (len + 1) * (D + 1) + D with D = |g|
+                    slen = len(cases[k]["input"].expandtabs())
+                    if not ((slen + 1) * (n_nodes + 1) + n_nodes < FUEL):
+                        continue
+                    term["compared_cases_under_recursive_theorem_only"] += 1
+                term["compared_cases_under_theorem"] += 1
+                if impl[k] == "hang":
+                    term["real_timeouts_under_theorem"] += 1
+                    term_bad.append({"case": cases[k], "impl": impl[k], "model": model[k], "what": "real-timeout"})
+                elif "hang" in model[k].replace("(", " ").replace(")", " ").split():
+                    term["model_hangs_under_theorem"] += 1
+                    term_bad.append({"case": cases[k], "impl": impl[k], "model": model[k], "what": "model-hang"})
     # the whole real call timed out: the model must say `hang` somewhere (partial scan results are not observable)
     model = ["hang" if (i == "hang" and m.endswith("hang)")) else m for m, i in zip(model, impl)]
     # CPython's recursion limit (deep right-recursive grammars on long inputs) is a property of the runtime, not of
@@ -198,6 +241,15 @@ def run_jobs(ctx, stream, jobs, project=None, nontrivial=None):
         st["plain_fragment"] = {"grammars_asked": len(plain_q), "grammars_plain": n_plain_g, "compared_cases_on_plain_grammars": n_plain_c,
                                 "meaning": "node tables for which the driver evaluates plainTable = true, i.e. the hypothesis "
                                            "Plain g of plain_parse_sound / plain_parse_iff_sem holds for the compared grammar"}
+    if term_q:
+        term["meaning"] = ("node tables for which the driver evaluates depthOk g |g| root = T (acyclic) and advOk g |g| = T, i.e. the "
+                           "hypotheses of PP.Parse.entry_points_terminate_depth hold (fuel %d >= |g|), or - recursive tables - "
+                           "recTableOk g |g| |g| = T and advOk g |g| = T with (len+1)*(|g|+1)+|g| < fuel, the hypotheses of "
+                           "PP.Parse.entry_points_terminate_rec_partial: the model provably never "
+                           "answers hang there, so a timeout of the real entry point on such a grammar is a failing input" % FUEL)
+        st["termination_fragment"] = term
+        ctx.notes.setdefault("termination_fragment", {})[stream] = {k: v for k, v in term.items() if k != "meaning"}
+        ctx.term_bad = getattr(ctx, "term_bad", []) + term_bad
     if n_rec:
         st["python_recursion_limit"] = st.get("python_recursion_limit", 0) + n_rec
     kk = st.setdefault("node_kinds_hit", {})
